@@ -453,7 +453,7 @@ func (g gentry) aft() *spb.AFTEntry {
 	case "ipv6":
 		e.Entry = &spb.AFTEntry_Ipv6{Ipv6: &aftpb.Afts_Ipv6EntryKey{Prefix: fmt.Sprintf("2001:db8:%d::/48", g.key), Ipv6Entry: &aftpb.Afts_Ipv6Entry{}}}
 	case "mpls":
-		e.Entry = &spb.AFTEntry_Mpls{Mpls: &aftpb.Afts_LabelEntryKey{Label: &aftpb.Afts_LabelEntryKey_LabelUint64{LabelUint64: 100 + g.key}, LabelEntry: &aftpb.Afts_LabelEntry{}}}
+		e.Entry = &spb.AFTEntry_Mpls{Mpls: &aftpb.Afts_LabelEntryKey{Label: &aftpb.Afts_LabelEntryKey_LabelUint64{LabelUint64: labelOf(g.key)}, LabelEntry: &aftpb.Afts_LabelEntry{}}}
 	}
 	return e
 }
@@ -469,7 +469,7 @@ func (g gentry) fluent() fluent.GRIBIEntry {
 	case "ipv6":
 		return fluent.IPv6Entry().WithNetworkInstance(g.ni).WithPrefix(fmt.Sprintf("2001:db8:%d::/48", g.key)).WithNextHopGroup(1)
 	default:
-		return fluent.LabelEntry().WithNetworkInstance(g.ni).WithLabel(uint32(100 + g.key)).WithNextHopGroup(1)
+		return fluent.LabelEntry().WithNetworkInstance(g.ni).WithLabel(uint32(labelOf(g.key))).WithNextHopGroup(1)
 	}
 }
 
@@ -477,13 +477,16 @@ func (g gentry) fluent() fluent.GRIBIEntry {
 // rendered in - another network instance (and another key) and then re-pointed: what is
 // looked up must be what the builder says NOW.
 func (g gentry) fluentMoved(from string) fluent.GRIBIEntry {
+	// (the key the builder had first: another one, or - every other time - the zero a loop
+	// variable starts at)
+	first := (g.key + 7) * uint64(len(from)%2)
 	switch g.kind {
 	case "nhg":
-		b := fluent.NextHopGroupEntry().WithNetworkInstance(from).WithID(g.key + 7).AddNextHop(1, 1)
+		b := fluent.NextHopGroupEntry().WithNetworkInstance(from).WithID(first).AddNextHop(1, 1)
 		b.EntryProto()
 		return b.WithID(g.key).WithNetworkInstance(g.ni)
 	case "nh":
-		b := fluent.NextHopEntry().WithNetworkInstance(from).WithIndex(g.key + 7).WithIPAddress("192.0.2.1")
+		b := fluent.NextHopEntry().WithNetworkInstance(from).WithIndex(first).WithIPAddress("192.0.2.1")
 		b.EntryProto()
 		return b.WithIndex(g.key).WithNetworkInstance(g.ni)
 	case "ipv4":
@@ -495,7 +498,7 @@ func (g gentry) fluentMoved(from string) fluent.GRIBIEntry {
 		b.EntryProto()
 		return b.WithNetworkInstance(g.ni)
 	default:
-		b := fluent.LabelEntry().WithNetworkInstance(from).WithLabel(uint32(100 + g.key)).WithNextHopGroup(1)
+		b := fluent.LabelEntry().WithNetworkInstance(from).WithLabel(uint32(labelOf(g.key))).WithNextHopGroup(1)
 		b.EntryProto()
 		return b.WithNetworkInstance(g.ni)
 	}
@@ -733,4 +736,13 @@ func indexCode(cs []codes.Code, c codes.Code) int {
 		}
 	}
 	return 0
+}
+
+// labelOf maps the small key space of the generated entries onto MPLS labels: ordinary
+// labels, and the special-purpose values a wanted label entry may just as well carry.
+func labelOf(key uint64) uint64 {
+	if key < 3 {
+		return 100 + key
+	}
+	return []uint64{1, 2, 3, 7, 0, 15, 16, 1048575}[(key-3)%8]
 }
